@@ -18,8 +18,8 @@ import CookModel.Lemmas.BindingsCombine
     "combining a selection" is stated for in-range selections (`C19_selected_out_of_range`
     records the other case).
 -/
-namespace Cook.Ffi
-open Cook
+namespace Cook
+open Ffi
 
 /-! ## The view mirrors the core recipe -/
 
@@ -184,7 +184,7 @@ theorem C19_selected_out_of_range {α} [Arith α] (ings : List (FIngredient α))
 
 /-! ## Non-vacuity -/
 
-section Examples
+namespace Ffi
 def exRecipe : ScaledRecipe Rat :=
   { sections := [⟨some "Dough".toList, [.step ⟨[.text "Mix ".toList, .ingredient 0, .cookware 0, .timer 0, .inlineQuantity 0], 1⟩,
                                        .text "rest".toList]⟩,
@@ -223,6 +223,6 @@ example : numbersOf exIngs "salt".toList "g".toList = [5, 1/2] := by decide +ker
 example : combineIngredientsSelected exIngs [2, 0, 2] = combineIngredients [exIngs[2], exIngs[0], exIngs[2]] := by
   decide +kernel
 example : combineIngredientsSelected exIngs [7] = .error (.unwrapNone "expand_with_ingredients") := by decide +kernel
-end Examples
+end Ffi
 
-end Cook.Ffi
+end Cook
